@@ -38,6 +38,25 @@ def main(tier, replay=None):
             raise ToolFailure("TLC failed on Time.tla: " + info["out"][-1200:])
         laws.append({"R": R, "SMax": smax, "states": info["distinct"]})
     run.cov["laws_model_checked"] = laws
+    # 1b. the same laws for the code's radix, R = 10^9, over ALL integer seconds, nanoseconds 0..R-1 and 32-bit ms/us arguments:
+    #     discharged symbolically by Apalache on TimeA.tla (the operators of Time.tla written without records)
+    import shutil, subprocess
+    adir = os.path.join(WORK, "apalache"); os.makedirs(adir, exist_ok=True)
+    shutil.copy(os.path.join(SPEC, "TimeA.tla"), adir)
+    try:
+        r = subprocess.run(["timeout", "600", "apalache-mc", "check", "--length=0", "--inv=Laws", "--out-dir=" + os.path.join(adir, "out"), "TimeA.tla"],
+                           cwd=adir, stdout=subprocess.PIPE, stderr=subprocess.STDOUT, text=True)
+        out = r.stdout
+    except OSError as e:
+        out = "apalache-mc could not be run: %s" % e
+        r = None
+    if r is not None and "The outcome is: NoError" in out:
+        run.cov["laws_all_integers_R_1e9"] = "discharged by Apalache (TimeA.tla, invariant Laws, length 0)"
+    elif r is not None and "The outcome is: Error" in out:
+        raise ToolFailure("Apalache refutes a law of TimeA.tla for R = 10^9: the transcription or the law is wrong\n" + out[-1500:])
+    else:
+        run.note("Apalache did not decide TimeA.tla (%s); the laws rest on TLC's small-radix check and the grids" % out[-200:].replace("\n", " "))
+    shutil.rmtree(os.path.join(adir, "out"), ignore_errors=True)
     # 2. R = 10^9: TLC evaluates the operators on the grid; the real functions must agree
     cfg = os.path.join(WORK, "tlc", "MC_Time.cfg")
     grid_s = "{0, 1, -1, 2, -2, 1073741823, -1073741823, 5, 1000}"
